@@ -215,8 +215,21 @@ func (s *Session) runFunc(key string, mode string) ([]*Obligation, []*Unit) {
 	}
 	var obls []*Obligation
 	var units []*Unit
+	type job struct {
+		in       *Inst
+		poolCase string
+	}
+	var jobs []job
 	for _, in := range s.instsFor(fi, ct) {
+		jobs = append(jobs, job{in, ""})
+	}
+	for k := 0; k < len(jobs); k++ {
+		in := jobs[k].in
 		u := newUnit(s.prog, s.cf, fi, ct, in, mode)
+		u.poolCase = jobs[k].poolCase
+		if u.poolCase == "" {
+			u.poolCase = "hit"
+		}
 		func() {
 			defer func() {
 				if r := recover(); r != nil {
@@ -229,6 +242,15 @@ func (s *Session) runFunc(key string, mode string) ([]*Obligation, []*Unit) {
 			u.verifyFunc()
 		}()
 		u.finish()
+		if u.sawPoolGet {
+			for _, o := range u.obls {
+				i := strings.Index(o.Name, "/")
+				o.Name = o.Name[:i] + "/pool-" + u.poolCase + ":" + o.Name[i+1:]
+			}
+			if jobs[k].poolCase == "" {
+				jobs = append(jobs, job{in, "miss"})
+			}
+		}
 		obls = append(obls, u.obls...)
 		units = append(units, u)
 		for _, e := range u.errs {
